@@ -81,7 +81,7 @@ def reference_boundary_tie(case):
     if r in ("Plurality", "SNTV"):
         return RS.straddle(RS.fpv(jp), kw["m"])
     if r == "Borda":
-        return RS.straddle(RS.borda(jp), kw["m"])
+        return RS.straddle(RS.borda(jp, kw.get("score_vector")), kw["m"])
     if r in G.SCORE_RULES:
         return RS.straddle(RS.score_totals(jp), kw["m"])
     return "n/a"
